@@ -653,7 +653,7 @@ func checkMain(propID, build, verif, tier string, seed int64) int {
 		if err == nil || !strings.Contains(string(out), "REPRODUCED "+sc.Violation.Sig) {
 			// not reported: only what replays is a verdict. If nothing else replays either, the run ends as machinery trouble below.
 			fmt.Fprintf(os.Stderr, "crssim: violation %s did not replay from %s (not reported)\n%s\n", sc.Violation.Sig, path, out)
-			_ = os.Remove(path)
+			_ = os.Rename(path, path+".unreplayed")
 			unreplayed++
 			continue
 		}
